@@ -38,6 +38,11 @@ def cells(tier):
         out.append(cell(f"s{size} A3|B2 cgroupB lock", sc, MON))
         sc = scen(pool(size), [[A("A", 2, args=2)], [M("M", 2, 1)], [GAC]], outcomes=["ret", "exc"])
         out.append(cell(f"s{size} A2|M2/1 gac", sc, MON))
+        for k in ([["T", 1]], [["T", 0], 2]):
+            sc = scen(pool(size), [[A("A", 3, fault=k)], [A("B", 1)]], outcomes=["ret"])
+            out.append(cell(f"s{size} A3 typefault{k}|B1", sc, MON))
+        sc = scen(pool(size, "SimpleTaskPool", args=1, kwargs=0, fault=[["T", 0]]), [[S("S", 3)]], outcomes=["ret"])
+        out.append(cell(f"simple s{size} S3 typefault[0]", sc, MON))
         for k in ([0], [1], [2], [0, 2]):
             sc = scen(pool(size), [[A("A", 3, fault=k)], [A("B", 1)], [LOCK]], outcomes=["ret"])
             out.append(cell(f"s{size} A3 fault{k}|B1 lock", sc, MON))
